@@ -17,9 +17,9 @@ def process_level(res, tier):
     exe = pl.build.build_bin("plain")
     wd = pl.workdir("c04")
     cases = []
-    for n in ([48, 64] if tier == "thorough" else [48]):
+    for n in ([48, 64] if vlib.wide(tier) else [48]):
         for stencil in (3, 4):
-            for zoom in ((0.7, 1.0, 1.4) if tier == "thorough" else (0.7, 1.4)):
+            for zoom in ((0.7, 1.0, 1.4) if vlib.wide(tier) else (0.7, 1.4)):
                 for fptype in (3, 1):
                     cases.append((n, stencil, zoom, fptype, 0))
         # grid geometry: another phase-space size, an odd grid, axes shifted (the limit is a property of the physics, not of where the grid sits)
